@@ -435,6 +435,15 @@ func verifyAndFillConfig(cfg *ResponseConfig, nowMS int) error {
 			return fmt.Errorf("timeShiftBufferDepth %ds is not less than %ds", tsbd, MAX_TIME_SHIFT_BUFFER_DEPTH_S)
 		}
 	}
+	if cfg.StopTimeS != nil {
+		stopTimeS := *cfg.StopTimeS
+		if stopTimeS <= cfg.StartTimeS {
+			return fmt.Errorf("stop time %ds is not after start time %ds", stopTimeS, cfg.StartTimeS)
+		}
+		if stopTimeS > math.MaxInt/1000 {
+			return fmt.Errorf("stop time %ds is too big", stopTimeS)
+		}
+	}
 	if cfg.ContMultiPeriodFlag && cfg.PeriodsPerHour == nil {
 		return fmt.Errorf("period continuity set, but not multiple periods per hour")
 	}
